@@ -4,6 +4,8 @@ From Coq Require Import Permutation Sorted.
 From TkModel Require Import Base Dec Acct Txn Balance.
 From TkSpec Require Import Balance_spec.
 From TkProofs Require Import Order_proofs Invariance_proofs.
+From TkModel Require Import Txn Accept Journal.
+From TkProofs Require Import Journal_layout_proofs.
 Local Open Scope Z_scope.
 
 (* TxnData::from: the transaction set is a sorted permutation of what was loaded *)
@@ -65,4 +67,144 @@ Proof.
   split.
   - constructor; [|constructor; [|constructor]]; cbn; intuition discriminate.
   - intros a b [Ha|[Ha|[]]] [Hb|[Hb|[]]]; subst; cbn; intros E; try reflexivity; discriminate.
+Qed.
+
+(* ------------------------------------------------------------------ insignificant layout of the journal
+   text (character-level parser model TkModel.Journal, tied to the implementation by the C06
+   correspondence check).  Proofs in TkProofs.Journal_layout_proofs. *)
+
+(* texts are built from newline-free lines, each followed by '\n' *)
+Theorem C04_unlines_split : forall ls, forallb (forallb (fun c => negb (c =? 10)%N)) ls = true ->
+  split_lines (unlines ls) = (ls, []).
+Proof. exact split_lines_unlines. Qed.
+Print Assumptions C04_unlines_split.
+
+(* BLANK LINES.  Chunks (= transactions) of a list of lines: additional blank lines where there already
+   is a chunk boundary — before the first line, after the last, next to a blank line — change nothing *)
+Theorem C04_layout_blank_lines_chunks : forall a blanks b, Forall (fun l => is_blank l = true) blanks ->
+  (a = [] \/ b = [] \/ (exists p x, a = p ++ [x] /\ is_blank x = true) \/ (exists x q, b = x :: q /\ is_blank x = true)) ->
+  chunks (a ++ blanks ++ b) = chunks (a ++ b).
+Proof. exact insert_blanks_chunks. Qed.
+Print Assumptions C04_layout_blank_lines_chunks.
+
+(* any non-empty run of blank lines, anywhere, can be replaced by any other non-empty run *)
+Theorem C04_layout_blank_run_chunks : forall a blanks1 blanks2 b, blanks1 <> [] -> blanks2 <> [] ->
+  Forall (fun l => is_blank l = true) blanks1 -> Forall (fun l => is_blank l = true) blanks2 ->
+  chunks (a ++ blanks1 ++ b) = chunks (a ++ blanks2 ++ b).
+Proof. exact blank_run_chunks. Qed.
+Print Assumptions C04_layout_blank_run_chunks.
+
+(* the side condition cannot be dropped: inside a run of non-blank lines a blank line IS significant,
+   it makes two chunks out of one *)
+Theorem C04_layout_blank_inside_significant : forall a bs b, a <> [] -> b <> [] -> bs <> [] ->
+  forallb (fun l => negb (is_blank l)) a = true -> forallb (fun l => negb (is_blank l)) b = true ->
+  forallb is_blank bs = true ->
+  chunks (a ++ b) = [a ++ b] /\ chunks (a ++ bs ++ b) = [a; b].
+Proof. exact chunks_blank_inside. Qed.
+Print Assumptions C04_layout_blank_inside_significant.
+
+(* the same for the text.  A blank text line holds blanks/TABs only and ends in "\n" or "\r\n" *)
+Theorem C04_layout_blank_lines : forall cfg a blanks b,
+  forallb (forallb (fun c => negb (c =? 10)%N)) a = true -> forallb (forallb (fun c => negb (c =? 10)%N)) b = true ->
+  forallb (fun l => is_blank (strip_cr l)) blanks = true ->
+  (a = [] \/ b = [] \/ (exists p x, a = p ++ [x] /\ is_blank (strip_cr x) = true)
+   \/ (exists x q, b = x :: q /\ is_blank (strip_cr x) = true)) ->
+  parse_journal cfg (unlines (a ++ blanks ++ b)) = parse_journal cfg (unlines (a ++ b)).
+Proof. exact parse_journal_insert_blanks. Qed.
+Print Assumptions C04_layout_blank_lines.
+
+Theorem C04_layout_blank_run : forall cfg a blanks1 blanks2 b,
+  forallb (forallb (fun c => negb (c =? 10)%N)) a = true -> forallb (forallb (fun c => negb (c =? 10)%N)) b = true ->
+  blanks1 <> [] -> blanks2 <> [] ->
+  forallb (fun l => is_blank (strip_cr l)) blanks1 = true -> forallb (fun l => is_blank (strip_cr l)) blanks2 = true ->
+  parse_journal cfg (unlines (a ++ blanks1 ++ b)) = parse_journal cfg (unlines (a ++ blanks2 ++ b)).
+Proof. exact parse_journal_blank_run_any. Qed.
+Print Assumptions C04_layout_blank_run.
+
+(* INDENTATION.  sp1 in front of a posting, metadata or comment line is any non-empty run of
+   blanks/TABs: only what follows it matters *)
+Theorem C04_layout_indent : forall sp1 sp2 r, sp1 <> [] -> sp2 <> [] ->
+  forallb is_sp sp1 = true -> forallb is_sp sp2 = true ->
+  parse_posting_line (sp1 ++ r) = parse_posting_line (sp2 ++ r)
+  /\ parse_meta_line (sp1 ++ r) = parse_meta_line (sp2 ++ r)
+  /\ parse_comment_line (sp1 ++ r) = parse_comment_line (sp2 ++ r).
+Proof. exact reindent_lines. Qed.
+Print Assumptions C04_layout_indent.
+
+(* but it must be there *)
+Theorem C04_layout_indent_required : forall r, match r with [] => true | c :: _ => negb (is_sp c) end = true ->
+  parse_posting_line r = None /\ parse_meta_line r = None /\ parse_comment_line r = None.
+Proof. exact line_needs_indent. Qed.
+Print Assumptions C04_layout_indent_required.
+
+(* the whole text: two texts whose lines differ only in the run of blanks/TABs they start with (where one
+   has none the other has none) give the same result — the same transactions or the same rejection *)
+Theorem C04_layout_indent_text : forall cfg ls ls',
+  forallb (forallb (fun c => negb (c =? 10)%N)) ls = true -> forallb (forallb (fun c => negb (c =? 10)%N)) ls' = true ->
+  Forall2 (fun l l' => exists sp1 sp2 r, l = sp1 ++ r /\ l' = sp2 ++ r
+             /\ forallb is_sp sp1 = true /\ forallb is_sp sp2 = true /\ (sp1 = [] <-> sp2 = [])) ls ls' ->
+  parse_journal cfg (unlines ls) = parse_journal cfg (unlines ls').
+Proof. exact parse_journal_reindent. Qed.
+Print Assumptions C04_layout_indent_text.
+
+(* ORDER OF THE METADATA LINES.  The metadata parser gives the same result — the same record and the
+   same remaining lines, or the same rejection — for every arrangement of a block of '#' lines
+   (arbitrary contents; a '#' line is one that parse_meta_line recognises as sp1 '#' ...) *)
+Theorem C04_layout_meta_order : forall ms ms', Permutation ms ms' ->
+  Forall (fun l => parse_meta_line l <> None) ms ->
+  forall rest u g t, parse_meta (ms ++ rest) u g t = parse_meta (ms' ++ rest) u g t.
+Proof. exact parse_meta_perm. Qed.
+Print Assumptions C04_layout_meta_order.
+
+(* spelled out: the six orders of three lines, the two orders of a pair *)
+Theorem C04_layout_meta_order3 : forall l1 l2 l3 rest u g t,
+  parse_meta_line l1 <> None -> parse_meta_line l2 <> None -> parse_meta_line l3 <> None ->
+  let r := parse_meta (l1 :: l2 :: l3 :: rest) u g t in
+  parse_meta (l1 :: l3 :: l2 :: rest) u g t = r /\ parse_meta (l2 :: l1 :: l3 :: rest) u g t = r
+  /\ parse_meta (l2 :: l3 :: l1 :: rest) u g t = r /\ parse_meta (l3 :: l1 :: l2 :: rest) u g t = r
+  /\ parse_meta (l3 :: l2 :: l1 :: rest) u g t = r.
+Proof. exact parse_meta_order3. Qed.
+Print Assumptions C04_layout_meta_order3.
+
+Theorem C04_layout_meta_order2 : forall l1 l2 rest u g t,
+  parse_meta_line l1 <> None -> parse_meta_line l2 <> None ->
+  parse_meta (l2 :: l1 :: rest) u g t = parse_meta (l1 :: l2 :: rest) u g t.
+Proof. exact parse_meta_order2. Qed.
+Print Assumptions C04_layout_meta_order2.
+
+(* and the record is the full one: a uuid, a location and a tags line in any order *)
+Theorem C04_layout_meta_three : forall ms l1 l2 l3 vu vg vt rest, Permutation ms [l1; l2; l3] ->
+  parse_meta_line l1 = Some (Some (M_uuid vu)) -> parse_meta_line l2 = Some (Some (M_loc vg)) ->
+  parse_meta_line l3 = Some (Some (M_tags vt)) ->
+  match rest with [] => True | l :: _ => parse_meta_line l = None end ->
+  parse_meta (ms ++ rest) None None None = Some (Some vu, Some vg, Some vt, rest).
+Proof. exact parse_meta_three. Qed.
+Print Assumptions C04_layout_meta_three.
+
+(* the transaction, and the whole text: any arrangement of a block of consecutive '#' lines *)
+Theorem C04_layout_meta_order_chunk : forall cfg hl ms ms' rest, Permutation ms ms' ->
+  Forall (fun l => parse_meta_line l <> None) ms ->
+  parse_chunk cfg (hl :: ms ++ rest) = parse_chunk cfg (hl :: ms' ++ rest).
+Proof. exact parse_chunk_meta_order. Qed.
+Print Assumptions C04_layout_meta_order_chunk.
+
+Theorem C04_layout_meta_order_text : forall cfg pre ms ms' post,
+  forallb (forallb (fun c => negb (c =? 10)%N)) (pre ++ ms ++ post) = true -> Permutation ms ms' ->
+  Forall (fun l => parse_meta_line (strip_cr l) <> None) ms ->
+  parse_journal cfg (unlines (pre ++ ms ++ post)) = parse_journal cfg (unlines (pre ++ ms' ++ post)).
+Proof. exact parse_journal_meta_order. Qed.
+Print Assumptions C04_layout_meta_order_text.
+
+(* non-vacuity: one transaction with three metadata lines, a comment and two postings is accepted; the
+   same with another order of the metadata, TAB indentation and blank lines (one of them "  \r\n")
+   around it parses to the same transaction; the same with a blank line inside is rejected *)
+Example C04_layout_example :
+  let cfg := mkCfg 0 0 in
+  (exists pt, parse_journal cfg [50; 48; 50; 52; 45; 48; 49; 45; 48; 49; 32; 39; 120; 10; 32; 32; 35; 32; 117; 117; 105; 100; 58; 32; 53; 48; 54; 97; 50; 100; 53; 53; 45; 50; 51; 55; 53; 45; 52; 100; 53; 49; 45; 97; 102; 51; 97; 45; 99; 102; 53; 48; 50; 49; 102; 48; 52; 100; 101; 57; 10; 32; 32; 35; 32; 108; 111; 99; 97; 116; 105; 111; 110; 58; 32; 103; 101; 111; 58; 54; 48; 46; 49; 44; 50; 52; 46; 57; 10; 32; 32; 35; 32; 116; 97; 103; 115; 58; 32; 97; 44; 32; 98; 10; 32; 32; 59; 32; 99; 10; 32; 32; 101; 32; 32; 49; 10; 32; 32; 97; 10]%N = Ok [pt] /\ parse_journal cfg [32; 10; 9; 10; 50; 48; 50; 52; 45; 48; 49; 45; 48; 49; 32; 39; 120; 10; 9; 35; 32; 116; 97; 103; 115; 58; 32; 97; 44; 32; 98; 10; 32; 9; 32; 35; 32; 117; 117; 105; 100; 58; 32; 53; 48; 54; 97; 50; 100; 53; 53; 45; 50; 51; 55; 53; 45; 52; 100; 53; 49; 45; 97; 102; 51; 97; 45; 99; 102; 53; 48; 50; 49; 102; 48; 52; 100; 101; 57; 10; 9; 9; 35; 32; 108; 111; 99; 97; 116; 105; 111; 110; 58; 32; 103; 101; 111; 58; 54; 48; 46; 49; 44; 50; 52; 46; 57; 10; 9; 59; 32; 99; 10; 32; 9; 101; 32; 32; 49; 10; 9; 97; 10; 32; 32; 13; 10; 10]%N = Ok [pt])
+  /\ parse_journal cfg [50; 48; 50; 52; 45; 48; 49; 45; 48; 49; 32; 39; 120; 10; 32; 32; 35; 32; 117; 117; 105; 100; 58; 32; 53; 48; 54; 97; 50; 100; 53; 53; 45; 50; 51; 55; 53; 45; 52; 100; 53; 49; 45; 97; 102; 51; 97; 45; 99; 102; 53; 48; 50; 49; 102; 48; 52; 100; 101; 57; 10; 32; 32; 35; 32; 108; 111; 99; 97; 116; 105; 111; 110; 58; 32; 103; 101; 111; 58; 54; 48; 46; 49; 44; 50; 52; 46; 57; 10; 32; 32; 35; 32; 116; 97; 103; 115; 58; 32; 97; 44; 32; 98; 10; 10; 32; 32; 59; 32; 99; 10; 32; 32; 101; 32; 32; 49; 10; 32; 32; 97; 10]%N = Err E_syntax.
+Proof.
+  cbv zeta. split.
+  - destruct (parse_journal (mkCfg 0 0) [50; 48; 50; 52; 45; 48; 49; 45; 48; 49; 32; 39; 120; 10; 32; 32; 35; 32; 117; 117; 105; 100; 58; 32; 53; 48; 54; 97; 50; 100; 53; 53; 45; 50; 51; 55; 53; 45; 52; 100; 53; 49; 45; 97; 102; 51; 97; 45; 99; 102; 53; 48; 50; 49; 102; 48; 52; 100; 101; 57; 10; 32; 32; 35; 32; 108; 111; 99; 97; 116; 105; 111; 110; 58; 32; 103; 101; 111; 58; 54; 48; 46; 49; 44; 50; 52; 46; 57; 10; 32; 32; 35; 32; 116; 97; 103; 115; 58; 32; 97; 44; 32; 98; 10; 32; 32; 59; 32; 99; 10; 32; 32; 101; 32; 32; 49; 10; 32; 32; 97; 10]%N) as [[|pt [|]]|] eqn:E; try (vm_compute in E; discriminate).
+    exists pt. split; [reflexivity|]. rewrite <- E. vm_compute. reflexivity.
+  - vm_compute. reflexivity.
 Qed.
